@@ -30,17 +30,22 @@ Theorem C16_runtime_required : forall apd C n,
     (sig_required apd C n = true <-> In n (required_attr apd C)).
 Proof. exact sig_required_spec. Qed.
 
-(* "no default in the stub <-> required at run time": the full statement ... *)
-Definition C16_defaults_statement : Prop := defaults_statement.
-(* ... is false of the faithful model (a required AnyOf[X, None] field is rendered "= None") *)
-Theorem C16_defaults_refuted : ~ C16_defaults_statement.
-Proof. exact defaults_refuted. Qed.
-(* ... and holds for every class whose Optional-rendered fields are exactly its non-required ones *)
+(* "no default in the stub <-> required at run time": the default marker is decided by _required alone (a field that
+   is not required gets "= None", a required one keeps its type text), so the clause holds of every class whose
+   required fields' type TEXTS do not themselves end with "= None" ... *)
 Theorem C16_defaults : forall apd C n,
     def_ok apd C = true -> tok_safe apd C = true ->
     In n (stub_init_names apd apd C) ->
     (stub_has_default apd apd C n = false <-> sig_required apd C n = true).
 Proof. exact defaults_agree. Qed.
+(* ... in particular of every class over the renderer's own vocabulary, where no type text ends with "= None"
+   (AnyOf/OneOf[X, None] and typing.Optional[X] are rendered "Optional[X]"; the harness reads the token of every
+   rendered field back from the generated text) *)
+Theorem C16_defaults_rendered : forall apd C n,
+    def_ok apd C = true -> (forall f, In f (all_fields C) -> f_tok f <> TOptNone) ->
+    In n (stub_init_names apd apd C) ->
+    (stub_has_default apd apd C n = false <-> sig_required apd C n = true).
+Proof. exact defaults_agree_rendered. Qed.
 
 (* "** in the stub <-> the class admits additional properties": full statement, refutation
    (flag inherited as True under default False), characterisation *)
@@ -91,8 +96,8 @@ Proof. intros ar ast C C' E. subst. split; reflexivity. Qed.
 Print Assumptions C16_sig_is_fields.
 Print Assumptions C16_params.
 Print Assumptions C16_runtime_required.
-Print Assumptions C16_defaults_refuted.
 Print Assumptions C16_defaults.
+Print Assumptions C16_defaults_rendered.
 Print Assumptions C16_kwargs_refuted.
 Print Assumptions C16_kwargs.
 Print Assumptions C16_methods_same_keywords.
@@ -102,12 +107,12 @@ Print Assumptions C16_no_duplicate_arguments.
 Print Assumptions C16_deterministic.
 
 (* non-vacuity: a three-level hierarchy with a Constant overriding an inherited field, a default,
-   a typing.Optional field, _required given explicitly, additional properties switched off in
+   a typing.Optional field, a required AnyOf[X, None] field, _required given explicitly, additional properties switched off in
    the middle, satisfies def_ok, tok_safe and kw_safe; its stub and signature are as expected *)
 Definition fld (n : string) (k : fkind) (d : bool) (t : tok) : fdecl :=
   {| f_name := s2p n; f_kind := k; f_default := d; f_tok := t |}.
 Definition ex_hier : hier :=
-  [ {| b_fields := [fld "val" KField false TPlain; fld "opt" KField false TOptNone];
+  [ {| b_fields := [fld "val" KField false TPlain; fld "opt" KField false TOptBare; fld "req" KField false TOptBare];
        b_required := None; b_optional := [s2p "opt"]; b_additional := Some false |};
     {| b_fields := [fld "subject" KConst false TPlain; fld "name" KField false TPlain];
        b_required := None; b_optional := []; b_additional := None |};
@@ -117,12 +122,19 @@ Definition ex_hier : hier :=
 Example C16_nonvacuous :
   def_ok true ex_hier = true /\ tok_safe true ex_hier = true /\ kw_safe true ex_hier = true /\
   no_reserved ex_hier = true /\
+  (forall f, In f (all_fields ex_hier) -> f_tok f <> TOptNone) /\
   m_kwparams (stub_init true true ex_hier)
-    = [(s2p "name", false); (s2p "val", false); (s2p "i", true); (s2p "opt", true)] /\
+    = [(s2p "name", false); (s2p "val", false); (s2p "req", false); (s2p "i", true); (s2p "opt", true)] /\
   m_kw (stub_init true true ex_hier) = false /\
   constants ex_hier = [s2p "subject"] /\
-  sig_required true ex_hier (s2p "val") = true /\ sig_required true ex_hier (s2p "opt") = false.
-Proof. vm_compute. repeat split; reflexivity. Qed.
+  sig_required true ex_hier (s2p "val") = true /\ sig_required true ex_hier (s2p "opt") = false /\
+  (* a required field declared AnyOf[X, None] ("Optional[X]"): no default in the stub, required at run time *)
+  sig_required true ex_hier (s2p "req") = true.
+Proof.
+  repeat split; try (vm_compute; reflexivity).
+  intros f Hf. vm_compute in Hf.
+  repeat (destruct Hf as [<- | Hf]; [discriminate|]). contradiction.
+Qed.
 
 (* ======================================================================================================
    the tie to the source of the stub renderers (generated layer), appended from the contributor's file *)
@@ -263,5 +275,5 @@ Example C16_src_nonvacuous :
   ext_ok ex_fobj ex_ext PNone PNone ex_src_hier = true /\
   nodup_names (map fst (type_info_text true ex_fobj ex_ext PNone PNone ex_src_hier)) = true /\
   m_kwparams (stub_init true true ex_src_hier)
-  = [(s2p "name", false); (s2p "val", false); (s2p "i", true); (s2p "opt", true)].
+  = [(s2p "name", false); (s2p "val", false); (s2p "req", false); (s2p "i", true); (s2p "opt", true)].
 Proof. vm_compute. repeat split; reflexivity. Qed.
